@@ -540,7 +540,8 @@ func execKernel(c *ctx, ops []string) *caseResult {
 var kChains = []string{"KUBE-HOSTPORTS", "U0", "U1", "U2", "U3", "KUBE-HP-BBBBBBBBBBBBBBBB", "OUTPUT", "PREROUTING", "MISSING"}
 
 // kernelRule: argv the kernel accepts in the nat table, whose iptables-save form is KernelCanon of it.
-func kernelRule(rng *rand.Rand, from int) []string {
+// known = user chains (indices into kChains) that exist at this point.
+func kernelRule(rng *rand.Rand, from int, known map[int]bool) []string {
 	var a []string
 	if rng.Intn(3) == 0 {
 		a = append(a, "-s", []string{"10.0.0.1", "10.1.0.0/16", "192.168.3.4/32"}[rng.Intn(3)])
@@ -559,11 +560,20 @@ func kernelRule(rng *rand.Rand, from int) []string {
 		a = append(a, "-j", "MARK", "--set-xmark", []string{"0x4000/0x4000", "0x8000/0x8000"}[rng.Intn(2)])
 	default:
 		// forward jumps only: the kernel refuses loops, which M6 does not model
-		tgt := "MISSING"
-		if from+1 < 6 && rng.Intn(8) != 0 {
-			tgt = kChains[from+1+rng.Intn(5-from)]
+		var cands []int
+		for k := from + 1; k < 6; k++ {
+			if known[k] {
+				cands = append(cands, k)
+			}
 		}
-		a = append(a, "-j", tgt)
+		switch {
+		case rng.Intn(10) == 0:
+			a = append(a, "-j", "MISSING")
+		case len(cands) > 0:
+			a = append(a, "-j", kChains[cands[rng.Intn(len(cands))]])
+		default:
+			a = append(a, "-j", "RETURN")
+		}
 	}
 	return a
 }
@@ -588,32 +598,58 @@ func genKernel(c *ctx, i int) []string {
 		}
 		return ops
 	}
+	known := map[int]bool{}
 	for n := 2 + rng.Intn(5); n > 0; n-- {
 		lines := []string{"*nat"}
 		var decl, rules []string
-		for k := 1 + rng.Intn(7); k > 0; k-- {
-			ci := rng.Intn(len(kChains))
+		now := map[int]bool{}
+		for k := range known {
+			now[k] = true
+		}
+		pick := func() int {
+			// mostly a chain that exists
+			if rng.Intn(6) != 0 {
+				var ex []int
+				for k := range now {
+					ex = append(ex, k)
+				}
+				ex = append(ex, 6, 7)
+				sort.Ints(ex)
+				return ex[rng.Intn(len(ex))]
+			}
+			return rng.Intn(len(kChains))
+		}
+		for k := 1 + rng.Intn(3); k > 0; k-- {
+			ci := rng.Intn(6)
+			decl = append(decl, ":"+kChains[ci]+" - [0:0]")
+			now[ci] = true
+		}
+		for k := 1 + rng.Intn(6); k > 0; k-- {
+			ci := pick()
 			ch := kChains[ci]
 			from := ci
 			if from > 5 {
 				from = -1 // builtin chains may jump anywhere
 			}
 			switch x := rng.Intn(20); {
-			case x < 7:
-				decl = append(decl, ":"+ch+" - [0:0]")
-			case x < 14:
-				rules = append(rules, strings.Join(append([]string{"-A", ch}, kernelRule(rng, from)...), " "))
-			case x < 16:
-				rules = append(rules, strings.Join(append([]string{"-I", ch}, kernelRule(rng, from)...), " "))
+			case x < 12:
+				rules = append(rules, strings.Join(append([]string{"-A", ch}, kernelRule(rng, from, now)...), " "))
+			case x < 15:
+				rules = append(rules, strings.Join(append([]string{"-I", ch}, kernelRule(rng, from, now)...), " "))
 			default:
 				if ci < 6 || ci == 8 { // never -X of a builtin chain: iptables-nft and M6 (= legacy) differ there
 					rules = append(rules, "-X "+ch)
+					delete(now, ci)
 				}
 			}
 		}
 		lines = append(append(lines, decl...), rules...)
 		lines = append(lines, "COMMIT")
 		ops = append(ops, "krestore "+encLineList(lines), "kdump")
+		// the batch may have failed; `known` is only a hint for the generator
+		if rng.Intn(2) == 0 {
+			known = now
+		}
 	}
 	return ops
 }
